@@ -58,6 +58,10 @@ type allFacts struct {
 		StartFailDone bool `json:"startfail_done"` // Protocol.Start closes doneChan when it cannot register
 		Found         bool `json:"found"`
 	} `json:"engine"`
+	KeepAlive struct {
+		ArmChecksDone bool `json:"arm_checks_done"` // keepalive.Client.startTimer looks at DoneChan / IsDone before it arms a timer
+		Found         bool `json:"found"`
+	} `json:"keepalive"`
 }
 
 type parsedFile struct {
@@ -623,6 +627,29 @@ func extract(repo, handPath string) {
 				})
 				return false
 			})
+		}
+	}
+	// keepalive.Client.startTimer: does it consult DoneChan() / IsDone() (before time.AfterFunc)?
+	if pf, err := parseGo(filepath.Join(repo, "protocol", "keepalive", "client.go")); err == nil {
+		if fd := pf.decls["Client.startTimer"]; fd != nil && fd.Body != nil {
+			out.KeepAlive.Found = true
+			var posCheck, posArm token.Pos
+			ast.Inspect(fd.Body, func(n ast.Node) bool {
+				if call, ok := n.(*ast.CallExpr); ok {
+					if sel, ok := call.Fun.(*ast.SelectorExpr); ok {
+						switch sel.Sel.Name {
+						case "DoneChan", "IsDone":
+							if posCheck == token.NoPos {
+								posCheck = call.Pos()
+							}
+						case "AfterFunc", "NewTimer", "Reset":
+							posArm = call.Pos()
+						}
+					}
+				}
+				return true
+			})
+			out.KeepAlive.ArmChecksDone = posCheck != token.NoPos && (posArm == token.NoPos || posCheck < posArm)
 		}
 	}
 	b, _ := json.MarshalIndent(out, "", " ")
